@@ -116,6 +116,18 @@ def gen_system(rng, multi=None):
     return moltypes, molecules
 
 
+def plan_rewind(rng):
+    """an alternating copolymer whose RA residues are supplied (-c) and whose RB residues are built (-res RB); one or two
+    growth steps are refused once after at least six residues were placed, so the walk rewinds over supplied residues"""
+    nres = rng.randint(14, 18)
+    mt = systems.gen_moltype(rng, 'MA', nres=nres, multi_atom=rng.random() < 0.5, shape='path',
+                             resnames=['RA' if i % 2 == 0 else 'RB' for i in range(nres)])
+    first = rng.randint(7, nres // 2)
+    fails = [first] + ([first + rng.randint(7, 9)] if rng.random() < 0.4 else [])
+    return {'kind': 'rewind', 'moltypes': [mt], 'molecules': [('MA', 1)], 'seed': rng.randrange(10 ** 6), 'L': 9.0, 'skip': ['RB'], 'ignore': [],
+            'fail': {}, 'resolution': 'mol', 'nres_supplied': nres, 'step_fail': fails, 'spacing': 0.75}
+
+
 # ------------------------------------------------------------------ end-to-end runs
 def snake(n, spacing, L):
     k = max(1, int((L - 0.6) / spacing))
@@ -178,7 +190,7 @@ def build_input(case):
     budget = case['nres_supplied']
     rows = []
     natoms = sum(len(by[n]['atoms']) for n in inst)
-    pts = iter(snake(natoms + 8, 0.47, case['L']))
+    pts = iter(snake(natoms + 8, case.get('spacing', 0.47), case['L']))
     for mi, name in enumerate(inst):
         mt = by[name]
         for r in range(mt['nres']):
@@ -216,6 +228,27 @@ def run_case(case, timeout=90):
         return run_molecule
     hooks = {'polyply.src.random_walk:RandomWalk.run_molecule': wrap_run_molecule} if case['fail'] else {}
     captured = {}
+    if case.get('step_fail'):
+        # scripted step failures: the k-th growth step of the run is refused once (no position stored), which makes the
+        # walk rewind when enough residues were placed before
+        calls = {'n': 0, 'rewinds': 0}
+
+        def wrap_update(real):
+            def update_positions(self, vector_bundle, current_node, prev_node):
+                calls['n'] += 1
+                if calls['n'] in case['step_fail']:
+                    return False
+                return real(self, vector_bundle, current_node, prev_node)
+            return update_positions
+
+        def wrap_rewind(real):
+            def _rewind(self, current_step):
+                calls['rewinds'] += 1
+                return real(self, current_step)
+            return _rewind
+        hooks['polyply.src.random_walk:RandomWalk.update_positions'] = wrap_update
+        hooks['polyply.src.random_walk:RandomWalk._rewind'] = wrap_rewind
+        captured['calls'] = calls
 
     def wrap_run_system(real):
         def run_system(self, molecules):
@@ -242,6 +275,7 @@ def run_case(case, timeout=90):
                                      maxiter=case.get('maxiter', 200), hooks=hooks, **kw)
     res['attempts'] = seen['attempts']
     res['centres'] = captured.get('centres')
+    res['rewinds'] = captured.get('calls', {}).get('rewinds', 0)
     return res, rows, plan
 
 
@@ -391,6 +425,7 @@ def run(ctx):
     # (ii) end to end
     kinds = ['full', 'partial', 'rebuild', 'centres', 'ignore', 'fail']
     cases = [c for _, c in core.corpus_cases('C04')]
+    cases += [plan_rewind(rng) for _ in range(ctx.n(2, 16))]
     # always exercised: one chain whose leading residues (the walk root included) are supplied, the rest built after
     # one or two abandoned attempts, at both resolutions
     for resolution in ('mol', 'meta_mol'):
@@ -422,6 +457,8 @@ def run(ctx):
                  sample={'kind': case['kind'], 'molecules': case['molecules'], 'supplied_residues': case['nres_supplied'], 'skip': case['skip'],
                          'ignore': case['ignore'], 'fail': case['fail'], 'attempts': res['attempts'], 'ok': res['ok']})
         ctx.feature('run_' + case['kind'])
+        if res.get('rewinds'):
+            ctx.feature('runs_with_a_rewind_over_supplied_residues' if case['kind'] == 'rewind' else 'runs_with_a_rewind')
         ctx.feature('runs_ok' if res['ok'] else 'runs_failed')
         if not res['ok']:
             ctx.note(f"run ({case['kind']}) ended with {res['exc_type']}: {str(res.get('exception'))[:120]}")
